@@ -61,6 +61,9 @@ func (idx *IndexWriter) AddRow(values map[string]string) (uint32, error) {
 }
 
 func getValueIndex(k, v string) uint64 {
+	if h, ok := verifHashOverride(k, v); ok {
+		return h
+	}
 	return xxhash.Sum64(append(append([]byte(k), 0), []byte(v)...))
 }
 
